@@ -243,11 +243,12 @@ class RawScript(object):
         raise ScriptExhausted()
 
 
-def echo_responder(net, tx, data, rc):
+def echo_responder(net, tx, data, rc, full=False):
     """C06: the machine answers with the request's sequence number; the reply says which transmission
-    caused it (arg1 = tx) and carries a payload of 4 bytes, 16 bytes or a full buffer (net.buffer_size)."""
+    caused it (arg1 = tx) and carries a payload of 4 bytes, 16 bytes or -- two times in five -- a full buffer
+    (net.buffer_size, the buffer size of the call in progress); full: always a full buffer."""
     d = decode(data)
-    n = (4, 4, 16, net.buffer_size, 4)[tx % 5]
+    n = net.buffer_size if full else (4, net.buffer_size, 16, net.buffer_size, 4)[tx % 5]
     payload = (struct.pack("<I", tx & 0xffffffff) + bytes(bytearray((tx + i) & 0xff for i in range(n))))[:max(n, 4)]
     return make_reply(rc, d["seq"], arg1=tx, arg2=d["args"][0] if d["args"] else 0, arg3=0, data=payload)
 
